@@ -284,6 +284,45 @@ def exArgsMonthly : Args :=
 example : (getTimescale cal30 exArgsMonthly).toOption =
     some ⟨[7776000, 10368000, 12960000], [⟨2678400, 3⟩], 1, 1, 3⟩ := by decide
 
+/-! ### the two findings on the code as it is, as `decide` witnesses on the model
+
+  (1) fixes/C22-month-start.diff. Before the fix StepForward is `AddDate(0,1,0)`: it adds a month to the previous point instead of
+  going to the start of the next month. In a zone where a month starts at 01:00 (summer time switched on at 00:00 of the 1st)
+  every later point stays at 01:00. `calGapOld` is such a calendar (30-day months, month 3 starts one hour late) with the old
+  `next`; `calGapFixed` has the `next` of the fixed code. With the old one `CalOK.next_aligned` fails and so does the property. -/
+
+def gapSom (t : Int) : Int :=
+  if 2592000 * 3 ≤ t ∧ t < 2592000 * 3 + 3600 then 2592000 * 2   -- the missing hour belongs to the previous month
+  else if 2592000 * 3 + 3600 ≤ t ∧ t < 2592000 * 4 then 2592000 * 3 + 3600
+  else t / 2592000 * 2592000
+
+/-- old code: `AddDate(0,1,0)` keeps the time of day; a result inside the missing hour is normalised to its end -/
+def calGapOld : Cal :=
+  ⟨gapSom, fun t => if 2592000 * 3 ≤ t + 2592000 ∧ t + 2592000 < 2592000 * 3 + 3600 then 2592000 * 3 + 3600 else t + 2592000⟩
+/-- fixed code: start of the next calendar month -/
+def calGapFixed : Cal := ⟨gapSom, fun t => gapSom (gapSom t + 2592000 + 3600)⟩
+
+def gapArgs : Args :=
+  { start := 2592000 * 2 + 5, end_ := 2592000 * 5 + 9, step := 2678400, now := 2592000 * 5, width := 0, mode := .range,
+    extend := false, utcOffset := 0, metrics := [] }
+
+/-- old: the point after the late month start is not a month start (4M+3600 instead of 4M), and month 5, which begins
+    (at 5M) before End = 5M+9, is missing because the drifted 5M+3600 is already past End -/
+example : (getTimescale calGapOld gapArgs).toOption.map (·.time) = some [5184000, 7779600, 10371600] := by decide
+example : calGapOld.som 10371600 ≠ 10371600 := by decide
+/-- fixed: every point is the start of its month -/
+example : (getTimescale calGapFixed gapArgs).toOption.map (·.time) =
+    some [5184000, 7779600, 10368000, 12960000] := by decide
+example : ∀ x ∈ [5184000, 7779600, 10368000, 12960000], calGapFixed.som x = x := by decide
+
+/-! (2) known finding `month-offset-coverage` (no small fix): monthly step with a metric offset of 31 days. The months are counted
+  on [Start - 31d, End - 31d) — four of them — but laid out from the unshifted start, so the last point (month 6) lies
+  beyond End (in month 5) although `extend` is off: `range_end_covered` below is false without its hypothesis `hm`. -/
+example : (getTimescale cal30 { exArgsMonthly with end_ := 2592000 * 5 + 100000, metrics := [(1, 2678400)] }).toOption.map (·.time) =
+    some [7776000, 10368000, 12960000, 15552000] := by decide
+example : (getTimescale cal30 { exArgsMonthly with end_ := 2592000 * 5 + 100000, metrics := [] }).toOption.map (·.time) =
+    some [7776000, 10368000, 12960000] := by decide
+
 /-! ### kept as statements, not proved in Lean
 
   theorem points_bounded (cal) (hc : CalOK cal) (a ts) (h : getTimescale cal a = .ok ts) (hp : isPoint a = false) :
